@@ -30,6 +30,7 @@ Record Inv (chk : bool) (N : cnf) (A : list lit) (s : state) : Prop := mkInv {
   inv_block_all : forall m, In m (if pending s then tl (sols s) else sols s) ->
                   In (map Z.opp m) (blockings (db s));
   inv_pending : pending s = true -> sols s <> [];
+  inv_enum_nopure : pending s = false -> sols s <> [] -> pures s = [];
   inv_verdict : match verdict s with
                 | Some RInfeasible => (chk = true -> unsat_under N A) /\ sols s = []
                 | Some RExhausted => sols s <> [] /\ pending s = false
@@ -80,7 +81,7 @@ Lemma step_Inv : forall chk N A limit s e s', Inv chk N A s -> step chk N A limi
 Proof.
   intros chk N A limit s e s' HI Hstep. unfold step in Hstep.
   destruct (verdict s) eqn:Ev; [discriminate|].
-  destruct HI as [Hsols Hdist Hdb Hpure Hbf Hba Hpend Hverd].
+  destruct HI as [Hsols Hdist Hdb Hpure Hbf Hba Hpend Hnopure Hverd].
   destruct e as [n pu un asm | c b | m | st].
   - (* EInit *)
     match type of Hstep with (if ?g then _ else _) = _ => destruct g eqn:Eg; [|discriminate] end.
@@ -93,7 +94,8 @@ Proof.
       destruct (sols s) as [|m rest] eqn:Es; [discriminate|].
       match type of Hstep with (if ?g then _ else _) = _ => destruct g eqn:Eg; [|discriminate] end.
       injection Hstep as Hs'. subst s'.
-      apply andb5 in Eg. destruct Eg as [Hc _]. apply zlist_eqb_eq in Hc. subst c.
+      apply andb5 in Eg. destruct Eg as [Eg Hnilp]. apply andb5 in Eg. destruct Eg as [Hc _]. apply zlist_eqb_eq in Hc. subst c.
+      assert (pures s = []) as Hp0 by (destruct (pures s); [reflexivity | discriminate]).
       constructor; simpl.
       * exact Hsols.
       * exact Hdist.
@@ -104,6 +106,7 @@ Proof.
         -- destruct (Hbf c Hin) as [m0 [H1 H2]]. exists m0. split; assumption.
       * intros m0 [Heq | Hin]; [left; subst; reflexivity | right; apply Hba; exact Hin].
       * discriminate.
+      * intros _ _. exact Hp0.
       * exact I.
     + (* learned clause *)
       match type of Hstep with (if ?g then _ else _) = _ => destruct g eqn:Eg; [|discriminate] end.
@@ -120,6 +123,7 @@ Proof.
       * exact Hbf.
       * rewrite Hnp in Hba. exact Hba.
       * discriminate.
+      * intros _. exact (Hnopure Hnp).
       * exact I.
   - (* ESolution *)
     match type of Hstep with (if ?g then _ else _) = _ => destruct g eqn:Eg; [|discriminate] end.
@@ -139,6 +143,7 @@ Proof.
     + exact Hpure.
     + intros c Hin. destruct (Hbf c Hin) as [m0 [H1 H2]]. exists m0. split; [right; exact H1 | exact H2].
     + exact Hba.
+    + discriminate.
     + discriminate.
     + exact I.
   - (* EVerdict *)
@@ -164,6 +169,7 @@ Proof.
       assert (sols s = []) as Hs0 by (destruct (sols s); [reflexivity | discriminate]).
       constructor; simpl; try assumption.
       * discriminate.
+      * intros _ Hne. exact (Hnopure Hnp Hne).
       * split; [|exact Hs0].
         intros Hchk [m [HmN HmA]]. rewrite Hchk in Hrup.
         destruct (pure_ok N A (pures s) m Hpure HmN HmA) as [HfN [HfA HfP]].
